@@ -321,6 +321,10 @@ var (
 )
 
 func gateFn(name, key string, gid int64) string {
+	if strings.HasPrefix(name, "link.") {
+		linkGate(name, key)
+		return ""
+	}
 	if name != "scan.send" {
 		return ""
 	}
@@ -895,9 +899,15 @@ func Run(r *core.Run) {
 			exes = append(exes, race)
 		}
 	}
+	// developer switch: VERIF_C08_PARTS=link runs only the compile-phase parts (C), (D)
+	parts := os.Getenv("VERIF_C08_PARTS")
+	scanPart := parts == "" || strings.Contains(parts, "scan")
 	imposedTotal := 0
 	// (A) model graphs: every arrival order TLC finds, imposed on the real scan
 	gs := graphs()
+	if !scanPart {
+		gs = nil
+	}
 	allOrders := make([][][]string, len(gs))
 	core.Parallel(len(gs), 4, func(i int) { allOrders[i] = modelGraph(r, gs[i]) })
 	for gi, g := range gs {
@@ -947,6 +957,9 @@ func Run(r *core.Run) {
 	r.Set("arrival_orders_imposed", imposedTotal)
 	// (B) scaled scenarios
 	nsc := r.Pick(4, 24)
+	if !scanPart {
+		nsc = 0
+	}
 	kinds := []string{"js", "assets", "diag", "js"}
 	for i := 0; i < nsc; i++ {
 		in := scaledIn{Seed: r.Seed*7919 + int64(i), NFiles: []int{30, 60, 120, 200}[i%4], Cfg: cfgs[i%len(cfgs)], Repeats: r.Pick(4, 8), Procs: []int{1, 2, 5, 16}, Kind: kinds[i%len(kinds)]}
@@ -979,6 +992,12 @@ func Run(r *core.Run) {
 			}
 		}
 	}
+	// (C) the compile phase: LinkPar.tla inputs x schedules imposed through the link.* gates,
+	// (D) scaled projects with 3-5 entry points without splitting under random link schedules,
+	// and the link.excl.* events of all those builds validated against LinkParTrace.tla
+	traces := runLinkPhase(r, exes)
+	traces = append(traces, runScaledLinkPhase(r, exes)...)
+	validateLinkTraces(r, traces)
 	r.Set("rule", "case = one (graph, config, imposed arrival order) or one scaled scenario (repeats + GOMAXPROCS sweep + imposed random orders + 3 absolute locations + concurrent siblings); non-trivial = at least 2 distinct arrival orders were actually imposed / at least 2 builds compared")
 }
 
